@@ -6,7 +6,8 @@ sys.path.insert(0, os.path.join(os.path.dirname(os.path.abspath(__file__)), ".."
 from vlib import *
 
 OVERLAY = {"p2p/net/swarm/zz_c05_verif_test.go": "harness/overlay/swarm/c05_verif_test.go",
-           "p2p/net/swarm/zz_c05w_verif_test.go": "harness/overlay/swarm/c05w_verif_test.go"}
+           "p2p/net/swarm/zz_c05w_verif_test.go": "harness/overlay/swarm/c05w_verif_test.go",
+           "p2p/net/swarm/zz_c05r_verif_test.go": "harness/overlay/swarm/c05r_verif_test.go"}
 PKG = "p2p/net/swarm"
 
 
@@ -100,6 +101,12 @@ def describe(t):
             return {"kind": "worker", "steps": steps[:80]}
     except Exception as e:
         return {"raw": t[:120], "decode_error": str(e)}
+    if t and t[0] == 4:
+        n = t[1]
+        recs = [dict(zip(("id", "relay", "private", "ip4", "ip6", "quic", "tcp", "score"), t[2 + 8 * i:10 + 8 * i])) for i in range(n)]
+        o = 2 + 8 * n
+        outs = [(t[o + 1 + 2 * i], t[o + 2 + 2 * i]) for i in range(t[o])] if o < len(t) else []
+        return {"kind": "ranker", "input": recs, "output(id,delay_ns)": outs}
     return describe_lim(t)
 
 
@@ -125,6 +132,11 @@ def nontrivial(line):
             return any(ob["waitingOnFd"] > 0 or ob["waitingOnPeer"] for _, ob in lim_steps(t))
     except Exception:
         return False
+    if t and t[0] == 4:
+        # ranker: at least three addresses, both IP versions present
+        n = t[1]
+        recs = [t[2 + 8 * i:10 + 8 * i] for i in range(n)]
+        return n >= 3 and any(r[3] for r in recs) and any(r[4] for r in recs)
     try:
         if t[0] == 2:
             # worker: a request had to wait (was pending) and some dial was started
@@ -191,6 +203,8 @@ def key(tag, toks, d):
         return "C05:limiter:%s:fd=%d:pp=%d:%s" % (clause, toks[1], toks[2], canon_lim(toks, step))
     if toks and toks[0] == 2:
         return "C05:worker:%s:%s" % (WCLAUSE.get(d[2], str(d[2])) if len(d) > 2 else "?", canon_w(toks, step))
+    if toks and toks[0] == 4:
+        return "C05:ranker:%s:%s" % (d, " ".join(map(str, toks[:120])))
     return "C05:%s:%s" % (toks[:1], d)
 
 
@@ -198,7 +212,9 @@ def what(tag, toks, d):
     step = d[1] if len(d) > 1 else "?"
     kind = toks[0] if toks else 0
     clause = (WCLAUSE if kind == 2 else CLAUSE).get(d[2], str(d[2])) if len(d) > 2 else "?"
-    comp = {1: "dial limiter", 2: "dial worker"}.get(kind, "?")
+    comp = {1: "dial limiter", 2: "dial worker", 4: "DefaultDialRanker"}.get(kind, "?")
+    if kind == 4:
+        clause = {1: "output-is-not-a-permutation-of-input", 2: "negative-delay"}.get(d[2] if len(d) > 2 else 0, "?")
     return "%s trace violates clause '%s' at step %s (diag %s)" % (comp, clause, step, d)
 
 
